@@ -36,6 +36,7 @@ def main(argv):
         tier = "quick"
     seed = int(os.environ.get("VERIF_SEED", "0") or 0)
     try:
+        common.use_repo()
         mod = importlib.import_module(f"harness.{pid.lower()}")
     except ModuleNotFoundError:
         print(f"no check for {pid}")
